@@ -141,8 +141,18 @@ class FakeFile:
 
 def make_os(fs):
     import os as real_os
-    return SimpleNamespace(path=SymPath, sep="/", remove=fs.remove, rename=fs.rename, chmod=fs.chmod, environ=real_os.environ,
-                           getcwd=lambda: CWD)
+
+    def os_open(path, flags, mode=0o777, *a, **kw):
+        # low-level open (as used by an `opener=`): recorded with its flags; returns a fake descriptor
+        fs.mut.append(("os.open", S(path)))
+        fs.os_open_flags = getattr(fs, "os_open_flags", []) + [(path, flags)]
+        return 1000 + len(fs.os_open_flags)
+    ns = SimpleNamespace(path=SymPath, sep="/", remove=fs.remove, rename=fs.rename, chmod=fs.chmod, environ=real_os.environ,
+                         getcwd=lambda: CWD, open=os_open)
+    for k in dir(real_os):
+        if k.startswith("O_"):
+            setattr(ns, k, getattr(real_os, k))
+    return ns
 
 
 class FakeZipInfo:
